@@ -1684,8 +1684,35 @@ def column_stack(tup):
     return concatenate(cols, axis=1)
 
 
+class SubDType:
+    """numpy.dtype((base, n)): every item is a row of n values of the base type"""
+    _pyvc_model_class = True
+
+    def __init__(self, base, n):
+        self.base, self.n = base, n
+
+
+def np_dtype(spec):
+    if isinstance(spec, tuple) and len(spec) == 2 and isinstance(spec[1], int) and not isinstance(spec[1], bool):
+        return SubDType(as_dtype(spec[0]), spec[1])
+    return as_dtype(spec)
+
+
 def fromiter(it, dtype=None, count=-1):
     used('NP-FROMITER')
+    if isinstance(dtype, SubDType):
+        # NP-FROMITER-SUBARRAY: items are rows of dtype.n values -> array of shape (items, n)
+        rows = fromiter(it, dtype=OBJECT, count=count)
+        width = dtype.n
+
+        def fn(i):
+            row = rows.fn((i[0],))
+            if isinstance(row, (list, tuple)):
+                if len(row) != width:
+                    raise_(ValueError, 'setting an array element with a sequence of the wrong length')
+                return _pick(list(row), i[1])
+            return asarray(row).fn((i[1],))
+        return NDArray((rows.shape[0], width), fn, dtype.base)
     d = as_dtype(dtype, OPAQUE)
     if isinstance(it, SymSeq):
         n = it.length
@@ -1949,6 +1976,7 @@ class NumpyModule:
     equal = staticmethod(np_equal)
     asarray = staticmethod(np_array)
     stack = staticmethod(stack)
+    dtype = staticmethod(np_dtype)
     repeat = staticmethod(repeat)
     concatenate = staticmethod(concatenate)
     expand_dims = staticmethod(expand_dims)
